@@ -15,6 +15,7 @@ Only closures that contain an effect (a crate-local call, a store / channel / co
 capture) are spliced; pure projections and predicates stay closures (the rules read those as they are).  Captured variables are
 rewritten to the caller's own locals, so `count += 1` inside `try_for_each` is an increment of the caller's `count`."""
 import copy
+from .facts import walk
 
 from . import inline
 
@@ -425,6 +426,166 @@ def desugar_iterator(facts, body, bb):
     return aj, spliced
 
 
+POLL_FN = "core::future::poll_fn::poll_fn"
+POLL = "core::future::future::Future::poll"
+
+
+def desugar_select(facts, body, bb):
+    """`tokio::select! { a = F0 => H0, b = F1 => H1 }` (no `else`).  The macro hides the awaits in a `poll_fn` closure that polls
+    `futures.0`, `futures.1`, .. and returns `Out::_i(value)`.  For the rules that is: one of the branch futures is awaited, which
+    one is not known.  The hidden awaits are given back their place in the caller: an opaque n-way branch, then per branch the
+    ordinary await skeleton `poll(&mut futures.i)` -> Ready / Pending, and `result = Out::_i(payload)`; the macro's own
+    `match output { Out::_i(pat) => Hi }` follows unchanged."""
+    aj0 = body.j
+    t = aj0["blocks"][bb]["term"]
+    if t.get("fn") != POLL_FN or "__tokio_select_util::Out" not in (t.get("fnx") or "") or t.get("t") is None or len(t["args"]) != 1:
+        return None
+    cd = closure_def(aj0, t["args"][0])
+    cb = facts.body(cd[0]) if cd else None
+    if cb is None or len(cd[1]) < 2:
+        return None
+    # the tuple of branch futures: a capture `&mut *futures_ref` with futures_ref = &mut futures
+    tup = None
+    for cap in cd[1]:
+        l1 = _single_ref_target_any(aj0, cap)
+        if l1 is None:
+            continue
+        l2 = _single_ref_target_any(aj0, {"move": {"l": l1, "p": []}})
+        cand = l2 if l2 is not None else l1
+        ds = [st for b in aj0["blocks"] if not b["cleanup"] for st in b["stmts"] if st["k"] == "assign" and st["lhs"]["l"] == cand and not st["lhs"]["p"]]
+        if len(ds) == 1 and ds[0]["rv"].get("agg") == "tuple":
+            tup = cand
+    if tup is None:
+        return None
+    # into_future(poll_fn(..)) -> __awaitee -> loop { poll(..) }: find the poll of the PollFn and its Ready block
+    b1 = aj0["blocks"][t["t"]]
+    if b1["term"]["k"] != "call" or not b1["term"].get("fn", "").endswith("IntoFuture::into_future") or b1["term"].get("t") is None:
+        return None
+    entry = b1["term"]["t"]                       # block that moves the future into __awaitee and enters the poll loop
+    if aj0["blocks"][entry]["term"]["k"] != "goto":
+        return None
+    poll_bb = None
+    seen, todo = set(), [aj0["blocks"][entry]["term"]["t"]]
+    while todo and len(seen) < 12:
+        x = todo.pop()
+        if x in seen:
+            continue
+        seen.add(x)
+        tx = aj0["blocks"][x]["term"]
+        if tx["k"] == "call" and tx.get("fn") == POLL and "poll_fn::PollFn" in (tx.get("fnx") or ""):
+            poll_bb = x
+            break
+        if tx["k"] in ("goto", "call") and tx.get("t") is not None:
+            todo.append(tx["t"])
+    if poll_bb is None:
+        return None
+    pt = aj0["blocks"][poll_bb]["term"]
+    pd = pt["dest"]["l"]
+    ready_bb = ready_idx = None
+    for bi, b in enumerate(aj0["blocks"]):
+        if b["cleanup"]:
+            continue
+        for k, st in enumerate(b["stmts"]):
+            if st["k"] == "assign" and "use" in st["rv"]:
+                pl = st["rv"]["use"].get("move") or st["rv"]["use"].get("copy")
+                if pl and pl["l"] == pd and len(pl["p"]) == 2 and isinstance(pl["p"][0], dict) and pl["p"][0].get("dc") == "Ready":
+                    ready_bb, ready_idx, result_local = bi, k, st["lhs"]
+    if ready_bb is None or result_local["p"]:
+        return None
+    # the Out enum and the absence of an `else` branch
+    out_adt = out_variants = None
+    for b in aj0["blocks"]:
+        for st in b["stmts"]:
+            if st["k"] == "assign" and "discr" in st["rv"] and "__tokio_select_util::Out" in (st["rv"].get("adt") or ""):
+                out_adt, out_variants, sw_block = st["rv"]["adt"], st["rv"]["variants"], b
+    if out_adt is None or "Disabled" not in out_variants:
+        return None
+    dis = str(out_variants.index("Disabled"))
+    dt = [tb for v, tb in sw_block["term"].get("arms", []) if v == dis]
+    if not dt:
+        return None
+    x, ok_no_else = dt[0], False
+    for _ in range(6):
+        tx = aj0["blocks"][x]["term"]
+        if tx["k"] == "call" and any("no else branch" in str((a.get("const") or {}).get("str", "")) for a in tx["args"]):
+            ok_no_else = True
+            break
+        if tx["k"] == "goto":
+            x = tx["t"]
+            continue
+        break
+    if not ok_no_else:
+        return None
+    # per branch: the poll the macro's closure makes on futures.i
+    polls = {}
+    for c in cb.calls():
+        if c.fn != POLL or c.bb not in cb.live_blocks():
+            continue
+        idx = None
+        for y in walk(c.arg(0)):
+            if y[0] == "field" and isinstance(y[2], int) and any(z[0] == "env" for z in walk(y[1])):
+                idx = y[2]
+                break
+        if idx is not None and idx not in polls:
+            polls[idx] = c
+    n = len(out_variants) - 1
+    if sorted(polls) != list(range(n)) or n < 1:
+        return None
+    ctx = Ctx(body)
+    aj = ctx.aj
+    sp = t["sp"]
+    choice = ctx.new_local(ctx.int_ty())
+    head = ctx.new_block()
+    firsts = []
+    for i in range(n):
+        c = polls[i]
+        ct = c.raw
+        r_ty = cb.j["locals"][ct["dest"]["l"]]["ty"] if not ct["dest"]["p"] else aj["locals"][pd]["ty"]
+        ref_l = ctx.new_local(aj["locals"][pt["args"][0]["move"]["l"]]["ty"] if "move" in pt["args"][0] else 0)
+        r = ctx.new_local(r_ty)
+        d = ctx.new_local(ctx.int_ty())
+        o = ctx.new_local(0)
+        pb = ctx.new_block()
+        wb = ctx.new_block()
+        vb = ctx.new_block()
+        aj["blocks"][pb]["stmts"] = [_st(_pl(ref_l), {"ref": _pl(tup, {"f": i, "n": None, "adt": None}), "mut": True}, sp)]
+        aj["blocks"][pb]["term"] = {"k": "call", "fn": POLL, "fnx": ct.get("fnx", POLL), "ga": ct.get("ga", []), "local": False, "res": ct.get("res"), "resx": ct.get("resx"),
+                                    "args": [{"move": _pl(ref_l)}, pt["args"][1]], "dest": _pl(r), "t": wb, "fn_sp": sp, "sp": sp, "exp": None, "select_branch": i}
+        aj["blocks"][wb]["stmts"] = [_st(_pl(d), {"discr": _pl(r), "adt": "core::task::poll::Poll", "variants": ["Ready", "Pending"]}, sp)]
+        aj["blocks"][wb]["term"] = {"k": "switch", "d": {"move": _pl(d)}, "arms": [["0", vb]], "otherwise": head, "sp": sp, "exp": None}
+        aj["blocks"][vb]["stmts"] = [_st(_pl(o), {"use": {"move": _pl(r, {"dc": "Ready", "v": 0}, {"f": 0, "n": "0", "adt": "core::task::poll::Poll"})}}, sp),
+                                     _st(result_local, {"agg": "adt", "adt": out_adt, "variant": out_variants[i], "vidx": i, "fields": ["0"], "ga": [], "ops": [{"move": _pl(o)}]}, sp)]
+        aj["blocks"][vb]["term"] = _goto(ready_bb, sp)
+        firsts.append(pb)
+    aj["blocks"][head]["term"] = {"k": "switch", "d": {"copy": _pl(choice)}, "arms": [[str(i), firsts[i]] for i in range(n - 1)], "otherwise": firsts[n - 1],
+                                  "sp": sp, "exp": None, "select": True}
+    # the Ready block no longer reads the PollFn's result: `result` comes from the branch taken
+    rb = aj["blocks"][ready_bb]
+    rb["stmts"] = rb["stmts"][:ready_idx] + rb["stmts"][ready_idx + 1:]
+    aj["blocks"][entry]["term"] = dict(_goto(head, sp), desugared="select")
+    aj.setdefault("desugared", []).append(cb.def_)
+    return aj, [cb.def_]
+
+
+def _single_ref_target_any(aj, operand):
+    """Like _single_ref_target, but also through a reborrow `&mut *r`: the local r."""
+    pl = operand.get("move") or operand.get("copy")
+    if pl is None or pl["p"]:
+        return None
+    defs = []
+    for b in aj["blocks"]:
+        if b["cleanup"]:
+            continue
+        for st in b["stmts"]:
+            if st["k"] == "assign" and st["lhs"]["l"] == pl["l"] and not st["lhs"]["p"]:
+                defs.append(st["rv"])
+        if b["term"]["k"] == "call" and b["term"]["dest"]["l"] == pl["l"]:
+            defs.append(None)
+    if len(defs) == 1 and defs[0] is not None and "ref" in defs[0] and defs[0]["ref"]["p"] in ([], ["*"]):
+        return defs[0]["ref"]["l"]
+    return None
+
+
 def candidates(facts, anchors):
     out = []
     for b in facts.all_bodies():
@@ -433,5 +594,7 @@ def candidates(facts, anchors):
         live = b.live_blocks()
         for c in b.calls():
             if c.bb in live and (c.fn in COMBINATORS or c.fn in TERMINALS):
+                out.append((b, c.bb, c.fn))
+            elif c.bb in live and c.fn == POLL_FN and "__tokio_select_util::Out" in c.fnx:
                 out.append((b, c.bb, c.fn))
     return out
